@@ -36,7 +36,7 @@ CLAIMED.update({
          "§5 C05"),
  "C06": (E4, MB + "; owed-ack queue oracle)",
          "Histories biased to request packets from 2-4 clients: per client the sequence of ack notifications must equal the model's owed-ack list (kind, id, SUBACK codes, request order) as a prefix at every drain and completely at every idle point; QoS 2 publishes enter the acceptance log only at release (checked through the C01 delivery oracle). Exploration only.",
-         T4 + " Region R8 (UNSUBSCRIBE shapes) excluded by construction.", "§5 C06"),
+         T4 + " UNSUBSCRIBE of several / unknown filters generated since R8 was repaired in /repo.", "§5 C06"),
  "C08": (E4, MB + " with persistent sessions; resume-position oracle)",
          "Histories around persistent clients with breaks (DISCONNECT, link failure, takeover) at generated points, unacknowledged forwards at the break, publishes while away, reconnect cycles with alternating clean flags: CONNACK session_present must match the session rule; after resume each QoS>0 stream restarts exactly at the oldest forward the broker had not seen acknowledged, QoS 0 streams contain everything accepted after the break; clean connects start empty. Exploration only; completeness within the retention bound.",
          T4, "§5 C08"),
@@ -45,13 +45,13 @@ CLAIMED.update({
          T4, "§5 C09"),
  "C15": (E4, MB + "; retained-store model with window semantics)",
          "Histories of retained / clearing / replacing publishes interleaved with new, repeated, shared and re-made subscriptions: replays flagged retained must be owed (new non-shared subscription), carry a value that was the topic's retained message in the subscription's window, cover every topic retained throughout the window (when it fits the delivery window); live copies are never flagged (a flagged live copy is consumed as replay and then missing from the live stream). Exploration only.",
-         T4 + " Region R9 excluded by construction.", "§5 C15"),
+         T4 + " R9 (non-retained empty payload clears the retained message) was repaired in /repo and is generated.", "§5 C15"),
  "C16": (E4, MB + "; wills as accepted messages of the model)",
          "Router part of the property: connections with/without will end by DISCONNECT or link failure, then PublishWill 0..n times: the will is an accepted message exactly when the connection ended without DISCONNECT and only once, so the C01 delivery oracle decides who must (not) receive it, incl. retained wills seen by later subscribers. The decision logic of remote() (which event is sent when) is not yet covered here (planned E5).",
          T4 + " Takeover histories are outside the claim and not generated.", "§5 C16"),
  "C17": (E4, MB + "; per-group delivery set oracle)",
          "Histories with 1-2 shared groups, 3-5 clean-session members joining/leaving/dropping, bursts, ack pacing, three strategies: a message is forwarded through a group at most once, only to a client that was a member between acceptance and delivery, each member's share in acceptance order; completeness at idle for round-robin groups that never emptied. Exploration only.",
-         T4 + " Known region R10 (parked member stall) excluded from the completeness clause; R11/R14 excluded by construction.", "§5 C17"),
+         T4 + " Known region R10 (parked member stall) excluded from the completeness clause and probed; R11 and R14 were repaired in /repo (R14: focused campaign with one share name on two filters).", "§5 C17"),
 })
 
 E6 = "E6 clientstate"
@@ -61,7 +61,7 @@ CLAIMED.update({
          "Trusts the reference model in harness/src/clientstate/interp.rs. User requests are fed only when the event loop would feed them (window not full, no collision).", "§5 C02"),
  "C07": (E6, "model-based stateful property testing (proptest) of MqttState v4/v5: wire-history invariants on packet ids, window and collision state",
          "Over the packets the state machine returns for the wire: ids non-zero and <= limit (v5: <= min(limit, receive maximum)), no publish emitted with an id the model holds as unacknowledged (QoS 2 until PUBCOMP), unacknowledged count <= limit, inflight() equals the model count after every step, a pending collision always names an id held by an unacknowledged publish and its final ack releases the parked publish. Limits 1..=8 crossed with random sequences plus 100 and 65535. The event-loop gate (E7) is being added.",
-         "Known finding K7 (v5 negative reason codes) excluded by construction and probed.", "§5 C07"),
+         "K7 (v5 negative reason codes) was repaired in /repo and is generated in the main campaigns.", "§5 C07"),
  "C10": (E6, "model-based stateful property testing (proptest) of MqttState v4/v5 inbound handling: reply rules and write<=>announce",
          "Arbitrary broker packet sequences (every type; ids valid, unsolicited, repeated, above the limit, 0) interleaved with user requests, manual_acks on/off: exactly one Incoming event per packet before any Outgoing it causes; QoS 1 -> PUBACK(id), QoS 2 -> PUBREC(id), PUBREL of a recorded id -> PUBCOMP(id), none when manual_acks; unsolicited acks are errors, never panics, and bookkeeping stays equal to the model; a packet is returned for writing iff exactly one matching Outgoing event was appended. The wire/batch layer (E7) is being added.",
          "Clauses the statement leaves open (PUBREL of unknown id, PUBCOMP under manual_acks, unsolicited SUBACK) are not asserted.", "§5 C10"),
@@ -93,7 +93,7 @@ for _p, _extra in {
   "C11": " Event-loop layer (E7): on resumed connections every in-flight publish and pending PUBREL precedes any never-sent request (original order for v4 QoS 1 acked oldest-first, also after failures during the replay); after a session-less CONNACK nothing carried over is sent.",
 }.items():
     e, t, text, note, ref = CLAIMED[_p]
-    CLAIMED[_p] = (e + " + " + E7, t + "; scripted-broker event-loop sessions under virtual time with byte-exact fault injection", text.replace(" The event-loop layer (crash points in bytes, channel backlog; E7) is being added.", "").replace(" The event-loop gate (E7) is being added.", "").replace(" The wire/batch layer (E7) is being added.", "").replace(" The wire-level clauses (retransmit first, no session => start clean; E7) are being added.", "") + _extra, note + " E7 trusts hook H6 (in-memory connector) and tokio's paused clock; select! order is seeded per case. Known finding K2 (carried channel requests bypass flow control) excluded by construction and probed.", ref)
+    CLAIMED[_p] = (e + " + " + E7, t + "; scripted-broker event-loop sessions under virtual time with byte-exact fault injection", text.replace(" The event-loop layer (crash points in bytes, channel backlog; E7) is being added.", "").replace(" The event-loop gate (E7) is being added.", "").replace(" The wire/batch layer (E7) is being added.", "").replace(" The wire-level clauses (retransmit first, no session => start clean; E7) are being added.", "") + _extra, note + " E7 trusts hook H6 (in-memory connector) and tokio's paused clock; select! order is seeded per case. K2 (carried channel requests bypassing flow control) was repaired in /repo and is generated in all E7 campaigns.", ref)
 CLAIMED["C18"] = (E7, "property-based testing (proptest) of rumqttc EventLoop v4/v5 under tokio's paused clock with a scripted broker + exhaustive enumeration of reply phase offsets",
    "Keep-alive K in {1,2,5,30} s (v5 below 5 s through the CONNACK server keep alive), per-ping reply delay in [0,K) at ms granularity or silence from ping j on, user / broker traffic in either direction, K = 0, handshakes that never complete: gaps CONNACK->ping->ping <= K; a silent broker is reported (AwaitPingResp) within [T+K, T+2K] of the unanswered ping; no keep-alive error while every reply takes < K; no PINGREQ for K = 0; an incomplete handshake is reported at exactly the connection timeout. All (d1,d2) phase offsets on a 100 ms grid for K in {1,2} are enumerated. Exploration otherwise.",
    "Trusts hook H6 and the paused tokio clock (all wake-ups in-process, so virtual timestamps are exact).", "§5 C18")
